@@ -42,6 +42,8 @@ def mk(kind, kids):
         return tuple(kids)
     if kind == "nt":
         return T.Pt(*kids)
+    if kind == "ntsub":
+        return T.PtSub(*kids)
     if kind == "set":
         return set(kids)
     if kind == "dictv":
@@ -65,7 +67,7 @@ def mk(kind, kids):
     raise AssertionError(kind)
 
 
-ARITY = {"list": (0, 1, 2), "tuple": (0, 1, 2), "nt": (2,), "set": (0, 1, 2), "dictv": (0, 1, 2), "dictk": (1, 2), "dc": (2,), "fdc": (2,),
+ARITY = {"list": (0, 1, 2), "tuple": (0, 1, 2), "nt": (2,), "ntsub": (2,), "set": (0, 1, 2), "dictv": (0, 1, 2), "dictk": (1, 2), "dc": (2,), "fdc": (2,),
          "dcn": (2,), "fdcn": (2,), "dcd": (1,)}
 
 
@@ -211,7 +213,7 @@ def run(ctx):
     from engine.common import check_harness_errors
 
     d1 = gen(1, LEAVES)
-    kids2 = LEAVES + [v for _, v in d1 if len(ref_leaves(v)) <= 1 or type(v).__name__ in ("FDCN", "DCN", "Pt")]
+    kids2 = LEAVES + [v for _, v in d1 if len(ref_leaves(v)) <= 1 or type(v).__name__ in ("FDCN", "DCN", "Pt", "PtSub")]
     if not ctx.quick:
         kids2 = LEAVES + [v for _, v in d1]
     d2 = gen(2, kids2)
@@ -236,7 +238,7 @@ def run(ctx):
         "distinct_nontrivial": len(shapes),
         "scheduler_evaluations": sum(r["n"] for r in res),
         "exhaustive": True,
-        "rule": "all nestings of depth <=2 over list, tuple, namedtuple, set, dict (values and keys), dataclass, frozen dataclass, dataclasses "
+        "rule": "all nestings of depth <=2 over list, tuple, namedtuple, a subclass of a namedtuple, set, dict (values and keys), dataclass, frozen dataclass, dataclasses "
         "with a non-init field (plain and frozen), leaves {1,'a',X, an instance of a plain tuple subclass}; oracle: map_nested_value with an injective function equals a reference "
         "rebuild (type-exact), the leaves it visits equal the leaves iter_nested_value yields equal the reference leaves; and "
         "Scheduler.run replaces X=ident(7) everywhere; distinct = distinct two-level type shapes",
